@@ -79,4 +79,19 @@ PROPS = {
             {"name": "sampled", "budget_s": 900, "chunk": 10},
         ], "minimise_s": 180},
     },
+    "C07": {
+        "test": "TestC07",
+        "level": "exploration",
+        "world": "A: 2-4 real Network engine nodes (real v2 protocol) on the simulated peer-to-peer transport",
+        "rule": "each run: 2-4 nodes preloaded with their own valid DAGs on a shared root (disjoint branches, one side far behind, mixed, differences "
+                "larger than one IBLT decodes, multi-page), full mesh or chain, seeded gossip interval; a fault phase with per-message drop, duplication, "
+                "delay/reordering, send errors, stale replays of recorded envelopes, partitions/heals, node restarts, bursts and transaction creation, then a "
+                "fair suffix. Non-trivial: at least one fault or non-FIFO decision and a non-empty difference; distinct = distinct decision hashes.",
+        "invariants": ["C07.monotone", "C07.sound", "C07.converge"],
+        "assumptions": KV_ASSUME + ["the gRPC connection manager is a stub: links deliver in order unless a delay fault reorders them",
+                                    "the convergence budget is 20 x (gossip interval + 30 s conversation validity) x (pages + transactions/300 + 1) x (nodes-1) of virtual time after faults stop; evidence reports the largest observed fraction of it"],
+        "probes_expected": ["net.drop", "net.duplicate", "net.delay-reorder", "net.send-error", "net.stale-replay", "net.partition", "crash.any-step", "burst-over-100"],
+        "quick": {"budget_s": 150, "chunk": 4, "chunk_timeout_s": 1200},
+        "thorough": {"budget_s": 2400, "chunk": 4, "minimise_s": 300, "chunk_timeout_s": 2400},
+    },
 }
